@@ -270,7 +270,7 @@ func judgeC07(c ReqCase) *Fail {
 
 func genC07(t *rapid.T) ReqCase {
 	g := G{t}
-	o := GenOpts{MaxBiases: 4, ValueMode: -1, Probes: true}
+	o := GenOpts{MaxBiases: 4, ValueMode: -1, Probes: true, BiasLikeIds: true}
 	if g.Chance(1, 5) {
 		o.TieHeavy = true
 	}
